@@ -103,24 +103,24 @@ theorem un_ne {u : Nat} (hu : u ∈ D.unOpsAll) : reprOf t u ≠ [] := by
   rw [hc]; exact List.cons_ne_nil _ _
 
 theorem lit_loop {a : α} (ha : a ∈ litsOf D) (rest : Str) (hr : AfterOperand t rest)
-    (res : List (Tok α)) (d : Int) :
-    lexLoop I t lm (I.dbg a ++ rest) 0 ⟨res, [], d⟩ = lexLoop I t lm rest 0 ⟨res ++ [.num a], [], d⟩ := by
-  obtain ⟨⟨c, cs, hc, hne⟩, hstep⟩ := hl.lit a ha rest ⟨res, [], d⟩ hr
+    (res : List (Tok α)) (d : Int) (dp : Bool) :
+    lexLoop I t lm (I.dbg a ++ rest) 0 ⟨res, [], d, dp⟩ = lexLoop I t lm rest 0 ⟨res ++ [.num a], [], d, dp⟩ := by
+  obtain ⟨⟨c, cs, hc, hne⟩, hstep⟩ := hl.lit a ha rest ⟨res, [], d, dp⟩ hr
   rw [hc] at hstep ⊢
   exact lexLoop_step I t lm c cs rest _ _ hne hstep
 
 theorem bin_loop {o : Nat} (ho : o ∈ D.binOpsAll) (rest : Str) (hr : AfterOperator I t D rest)
-    (res : List (Tok α)) (d : Int) :
-    lexLoop I t lm (reprOf t o ++ rest) 0 ⟨res, [], d⟩ = lexLoop I t lm rest 0 ⟨res ++ [.op o], [], d⟩ := by
-  obtain ⟨⟨c, cs, hc, hne⟩, hstep⟩ := hl.bin o ho rest ⟨res, [], d⟩ hr
+    (res : List (Tok α)) (d : Int) (dp : Bool) :
+    lexLoop I t lm (reprOf t o ++ rest) 0 ⟨res, [], d, dp⟩ = lexLoop I t lm rest 0 ⟨res ++ [.op o], [], d, dp⟩ := by
+  obtain ⟨⟨c, cs, hc, hne⟩, hstep⟩ := hl.bin o ho rest ⟨res, [], d, dp⟩ hr
   rw [hc] at hstep ⊢
   exact lexLoop_step I t lm c cs rest _ _ hne hstep
 
 theorem un_loop {u : Nat} (hu : u ∈ D.unOpsAll) (rest : Str)
-    (res : List (Tok α)) (d : Int) :
-    lexLoop I t lm (reprOf t u ++ '(' :: rest) 0 ⟨res, [], d⟩ =
-      lexLoop I t lm ('(' :: rest) 0 ⟨res ++ [.op u], [], d⟩ := by
-  obtain ⟨⟨c, cs, hc, hne⟩, hstep⟩ := hl.un u hu rest ⟨res, [], d⟩
+    (res : List (Tok α)) (d : Int) (dp : Bool) :
+    lexLoop I t lm (reprOf t u ++ '(' :: rest) 0 ⟨res, [], d, dp⟩ =
+      lexLoop I t lm ('(' :: rest) 0 ⟨res ++ [.op u], [], d, dp⟩ := by
+  obtain ⟨⟨c, cs, hc, hne⟩, hstep⟩ := hl.un u hu rest ⟨res, [], d, dp⟩
   rw [hc] at hstep ⊢
   exact lexLoop_step I t lm c cs _ _ _ hne hstep
 
@@ -156,34 +156,37 @@ theorem wrapUn_varOcc (c : Chain α) : ∀ us : List Nat, (wrapUn us c).varOcc =
     exact wrapUn_varOcc c (u' :: us)
 
 /-- the text `s`, in front of anything that can follow an operand, is lexed as `toks`
-    (parenthesis depth and owed parentheses unchanged) -/
+    (parenthesis depth, owed parentheses and the unmatched-`)` flag unchanged; parentheses are
+    balanced inside `s`, so from a non-negative depth the depth never becomes negative) -/
 def Loop (s : Str) (toks : List (Tok α)) : Prop :=
-  ∀ rest res d, AfterOperand t rest →
-    lexLoop I t lm (s ++ rest) 0 ⟨res, [], d⟩ = lexLoop I t lm rest 0 ⟨res ++ toks, [], d⟩
+  ∀ rest res d dp, AfterOperand t rest → 0 ≤ d →
+    lexLoop I t lm (s ++ rest) 0 ⟨res, [], d, dp⟩ = lexLoop I t lm rest 0 ⟨res ++ toks, [], d, dp⟩
 
 omit hl in
 theorem afterOperand_pclose (x : Str) : AfterOperand t (')' :: x) := Or.inr (Or.inl rfl)
 
 /-- a non-empty unary chain around a body -/
 theorem wrap_loop (body : Str) (c : Chain α) (hb : Loop I t lm body (c.toks I)) :
-    ∀ (u : Nat) (us : List Nat), (∀ x ∈ u :: us, x ∈ D.unOpsAll) → ∀ (rest : Str) (res : List (Tok α)) (d : Int),
-      lexLoop I t lm (unPre t (u :: us) ++ body ++ List.replicate (u :: us).length ')' ++ rest) 0 ⟨res, [], d⟩ =
-        lexLoop I t lm rest 0 ⟨res ++ (wrapUn (u :: us) c).toks I, [], d⟩
-  | u, [], hu, rest, res, d => by
+    ∀ (u : Nat) (us : List Nat), (∀ x ∈ u :: us, x ∈ D.unOpsAll) → ∀ (rest : Str) (res : List (Tok α)) (d : Int) (dp : Bool), 0 ≤ d →
+      lexLoop I t lm (unPre t (u :: us) ++ body ++ List.replicate (u :: us).length ')' ++ rest) 0 ⟨res, [], d, dp⟩ =
+        lexLoop I t lm rest 0 ⟨res ++ (wrapUn (u :: us) c).toks I, [], d, dp⟩
+  | u, [], hu, rest, res, d, dp, hd => by
     have e : unPre t [u] ++ body ++ List.replicate [u].length ')' ++ rest =
         reprOf t u ++ '(' :: (body ++ ')' :: rest) := by
       simp [unPre]
     rw [e, un_loop I t lm D hl (hu u List.mem_cons_self), lexLoop_popen,
-      hb _ _ _ (afterOperand_pclose t rest), lexLoop_pclose, wrapUn_one]
+      hb _ _ _ _ (afterOperand_pclose t rest) (by omega), lexLoop_pclose _ _ _ _ _ _ _ (by omega),
+      wrapUn_one]
     exact congrArg (lexLoop I t lm rest 0) (st_congr (by simp [Atom.toks]) (by omega))
-  | u, u' :: us, hu, rest, res, d => by
+  | u, u' :: us, hu, rest, res, d, dp, hd => by
     have ih := wrap_loop body c hb u' us (fun x hx => hu x (List.mem_cons_of_mem _ hx)) (')' :: rest)
-      (res ++ [.op u] ++ [.popen]) (d + 1)
+      (res ++ [.op u] ++ [.popen]) (d + 1) dp (by omega)
     have e : unPre t (u :: u' :: us) ++ body ++ List.replicate (u :: u' :: us).length ')' ++ rest =
         reprOf t u ++ '(' :: (unPre t (u' :: us) ++ body ++ List.replicate (u' :: us).length ')' ++ ')' :: rest) := by
       rw [unPre_cons t u, List.length_cons, List.replicate_succ' (n := (u' :: us).length)]
       simp
-    rw [e, un_loop I t lm D hl (hu u List.mem_cons_self), lexLoop_popen, ih, lexLoop_pclose, wrapUn_two]
+    rw [e, un_loop I t lm D hl (hu u List.mem_cons_self), lexLoop_popen, ih,
+      lexLoop_pclose _ _ _ _ _ _ _ (by omega), wrapUn_two]
     exact congrArg (lexLoop I t lm rest 0) (st_congr (by simp [Atom.toks, Chain.toks]) (by omega))
 
 variable (top : List Str)
@@ -197,14 +200,14 @@ theorem node_lexes : ∀ nd : DeepNode α, C10.NamedNode top nd → fromTableLis
   | .num a, _, _, hlit, _, _, _ => by
     have ha : a ∈ litsOf D := hlit a (by simp [litsOfList])
     rw [DeepNode.unparseNode, nodeAtom, Atom.toks]
-    exact ⟨fun rest res d hr => lit_loop I t lm D hl ha rest hr res d,
+    exact ⟨fun rest res d dp hr _ => lit_loop I t lm D hl ha rest hr res d dp,
       fun rest => afterOperator_lit I t lm D hl ha rest⟩
   | .var i name, _, _, _, _, _, hvar => by
     have hx : '}' ∉ name := hvar name (by rw [nodeAtom, Atom.varOcc]; exact List.mem_singleton.2 rfl)
     rw [DeepNode.unparseNode, nodeAtom, Atom.toks]
     refine ⟨?_, fun rest => Or.inr (Or.inl rfl)⟩
-    intro rest res d _
-    have h := brace_var I t lm name rest hx ⟨res, [], d⟩
+    intro rest res d dp _ _
+    have h := brace_var I t lm name rest hx ⟨res, [], d, dp⟩
     have e : ['{'] ++ name ++ ['}'] ++ rest = '{' :: (name ++ ['}']) ++ rest := by simp
     rw [e]
     refine lexLoop_step I t lm '{' (name ++ ['}']) rest _ _ (by decide) ?_
@@ -233,15 +236,16 @@ theorem node_lexes : ∀ nd : DeepNode α, C10.NamedNode top nd → fromTableLis
     | nil =>
       simp only [DeepEx.un, List.isEmpty_nil, if_true]
       refine ⟨?_, fun rest => Or.inl rfl⟩
-      intro rest res d _
+      intro rest res d dp _ hd
       simp only [List.append_assoc, List.cons_append, List.nil_append]
-      rw [lexLoop_popen, hloop _ _ _ (afterOperand_pclose t rest), lexLoop_pclose, wrapUn_nil]
+      rw [lexLoop_popen, hloop _ _ _ _ (afterOperand_pclose t rest) (by omega),
+        lexLoop_pclose _ _ _ _ _ _ _ (by omega), wrapUn_nil]
       exact congrArg (lexLoop I t lm rest 0) (st_congr (by simp [Atom.toks]) (by omega))
     | cons u us =>
       simp only [DeepEx.un, List.isEmpty_cons, Bool.false_eq_true, if_false]
       refine ⟨?_, ?_⟩
-      · intro rest res d _
-        exact wrap_loop I t lm D hl _ _ hloop u us huo rest res d
+      · intro rest res d dp _ hd
+        exact wrap_loop I t lm D hl _ _ hloop u us huo rest res d dp hd
       · intro rest
         have e : List.foldl (fun acc u => acc ++ reprOf t u ++ ['(']) [] (u :: us) = unPre t (u :: us) := rfl
         rw [e, unPre_cons]
@@ -286,10 +290,10 @@ theorem body_lexes : ∀ ns : List (DeepNode α), C10.namedList top ns → fromT
       (fun a ha => hvar a (List.mem_append_right _ ha))
     rw [hbc, hj, Chain.toks]
     refine ⟨?_, ?_⟩
-    · intro rest res d hr
+    · intro rest res d dp hr hd
       simp only [List.append_assoc]
-      rw [hl1 _ _ _ (afterOperand_bin I t lm D hl (hto o List.mem_cons_self) (hbo o List.mem_cons_self) _),
-        bin_loop I t lm D hl (hbo o List.mem_cons_self) _ (ha2 rest), hl2 _ _ _ hr]
+      rw [hl1 _ _ _ _ (afterOperand_bin I t lm D hl (hto o List.mem_cons_self) (hbo o List.mem_cons_self) _) hd,
+        bin_loop I t lm D hl (hbo o List.mem_cons_self) _ (ha2 rest), hl2 _ _ _ _ hr hd]
       exact congrArg (lexLoop I t lm rest 0) (st_congr (by simp) rfl)
     · intro rest
       simp only [List.append_assoc]
@@ -317,24 +321,24 @@ theorem tokenize_unparse {α} (I : Interp α) (t : Table) (lm : Str → Option N
     (fun a ha => by rw [litsOf]; exact ha)
     (fun o ho => by simp [DeepEx.binOpsAll]; exact Or.inl ho)
     (fun u hu => by simp [DeepEx.unOpsAll]; exact Or.inl hu) hvar'
-  have key : lexLoop I t lm ((DeepEx.mk nodes ops un vars).unparse I t) 0 ⟨[], [], 0⟩ =
-      .ok ⟨(topChain I (.mk nodes ops un vars)).toks I, [], 0⟩ := by
+  have key : lexLoop I t lm ((DeepEx.mk nodes ops un vars).unparse I t) 0 ⟨[], [], 0, false⟩ =
+      .ok ⟨(topChain I (.mk nodes ops un vars)).toks I, [], 0, false⟩ := by
     rw [DeepEx.unparse]
     cases un with
     | nil =>
-      have h := hloop [] [] 0 (Or.inl rfl)
+      have h := hloop [] [] 0 false (Or.inl rfl) (by omega)
       simp only [List.append_nil, List.nil_append] at h
       simp only [List.isEmpty_nil, if_true]
       rw [h, topChain]; rfl
     | cons u us =>
       have h := wrap_loop I t lm _ hl _ _ hloop u us
-        (fun x hx => by simp only [DeepEx.unOpsAll]; exact List.mem_append_right _ hx) [] [] 0
+        (fun x hx => by simp only [DeepEx.unOpsAll]; exact List.mem_append_right _ hx) [] [] 0 false (by omega)
       simp only [List.append_nil, List.nil_append] at h
       simp only [List.isEmpty_cons, Bool.false_eq_true, if_false]
       rw [topChain, Chain.toks]
       exact h
   unfold tokenize
-  show (match lexLoop I t lm ((DeepEx.mk nodes ops un vars).unparse I t) 0 ⟨[], [], 0⟩ with
+  show (match lexLoop I t lm ((DeepEx.mk nodes ops un vars).unparse I t) 0 ⟨[], [], 0, false⟩ with
     | .ok st => Except.ok st.res
     | .error e => .error e) = _
   rw [key]
